@@ -14,6 +14,7 @@
 //!           trees of the function must be equal; a panic of the exporter is a failure.
 mod conv;
 mod eval;
+mod pairs;
 mod pgen;
 mod sx;
 
@@ -461,5 +462,29 @@ pub fn run(args: &Args, out: &mut Out) {
             out.case(&format!("C01.fn\t{}\t-\t\t-\t-", one_line(&src)), "harness-panic", &format!("SKIP:harness panic {}", pn));
         }
     }
-    out.stat(&format!("{{\"programs\":{},\"hist\":{}}}", n, hist.json()));
+    // exhaustive operator-nesting shapes (every tier): one tiny function per program, fixed argument grid
+    let grid = parse_vectors(&pairs::grid_text()).unwrap_or_default();
+    let shapes = pairs::stream();
+    let mut nshapes = 0u64;
+    for (shape, src) in &shapes {
+        nshapes += 1;
+        let before = out.oracle_fail;
+        let mut arng = Rng::new(1);
+        let mut h2 = Hist::default();
+        if let Err(pn) = guard(|| run_program(src, Some(("f1", &grid)), grid.len(), &mut arng, out, &mut h2)) {
+            hist.add("harness-panic");
+            out.case(&format!("C01.fn\t{}\tf1\t{}\t-\t-", one_line(src), pairs::grid_text()), "harness-panic", &format!("SKIP:harness panic {}", pn));
+        }
+        hist.add(&format!("shape:{}", shape));
+        if h2.0.contains_key("skip:front-end") {
+            hist.add(&format!("shape-rejected-by-front-end:{}", shape));
+        }
+        if h2.0.keys().any(|k| k.starts_with("text-not-reparsable")) {
+            hist.add(&format!("shape-text-not-reparsable:{}", shape));
+        }
+        if out.oracle_fail > before {
+            hist.add(&format!("shape-oracle-fail:{}", shape));
+        }
+    }
+    out.stat(&format!("{{\"programs\":{},\"shapes\":{},\"hist\":{}}}", n, nshapes, hist.json()));
 }
